@@ -66,6 +66,10 @@ func (d *Dir) Write(files map[string][]byte) error {
 		d.log.Infof("Written file %s", file)
 	}
 
+	// A previous write that was interrupted between the symlink and the rename leaves a stale ".new" symlink
+	// behind, which would make every later symlink creation fail: remove it (it is fine if it does not exist)
+	_ = os.Remove(d.target + ".new")
+
 	if err := os.Symlink(newDir, d.target+".new"); err != nil {
 		return err
 	}
